@@ -44,6 +44,10 @@ pub struct FramesCase {
     pub near_cuts: Vec<(u16, u8)>,
     pub corrupt_mask: u8,
     pub truncate_at: u16,
+    /// append a crafted Sync frame with this many fingerprint parts and one item part with this many values (list
+    /// lengths on both sides of the one-byte / two-byte varint boundary at 128)
+    #[serde(default)]
+    pub big: Option<(u16, u16)>,
 }
 
 #[derive(Serialize, Deserialize, Clone, Debug)]
@@ -143,9 +147,9 @@ impl Prop for C09 {
             vec(any::<u16>(), 1..=8),
             vec((any::<u16>(), 1u8..=3), 0..=2),
             1u8..=255,
-            any::<u16>(),
+            (any::<u16>(), prop::option::weighted(0.04, (prop_oneof![Just(0u16), Just(127), Just(128), Just(129), 0u16..300], prop_oneof![Just(0u16), Just(127), Just(128), Just(129), 0u16..300]))),
         )
-            .prop_map(|(pools, a, b, config, abort, cuts, near_cuts, corrupt_mask, truncate_at)| Case::Frames(FramesCase { pools, a, b, config, abort, cuts, near_cuts, corrupt_mask, truncate_at }));
+            .prop_map(|(pools, a, b, config, abort, cuts, near_cuts, corrupt_mask, (truncate_at, big))| Case::Frames(FramesCase { pools, a, b, config, abort, cuts, near_cuts, corrupt_mask, truncate_at, big }));
         let addr = (0u8..6, prop::option::of(0u8..3), vec((any::<bool>(), any::<u16>()), 0..=3)).prop_map(|(key, relay, ips)| AddrSpec { key, relay, ips });
         let fsp = (any::<bool>(), vec(any::<u8>(), 0..6)).prop_map(|(exact, bytes)| FSpec { exact, bytes });
         let values = (
@@ -260,6 +264,22 @@ fn check_frames(ctx: &mut Ctx, c: &FramesCase, o: &mut Outcome) -> R<()> {
     for (i, m) in t.msgs.iter().enumerate() {
         let pm: ProtocolMessage = es(postcard::from_bytes(m))?;
         frames.push(if i == 0 { Frame::init(ns, pm) } else { Frame::sync(pm) });
+    }
+    if let Some((nparts, nvalues)) = c.big {
+        use crate::wire::{MFingerprint, MMessage, MPart, MRange, MRangeFingerprint, MRangeItem};
+        o.class("frames/crafted-frame-with-long-lists");
+        if nparts >= 128 || nvalues >= 128 {
+            o.class("frames/list-of->=128-elements");
+        }
+        let id = |i: u16| iroh_docs::RecordIdentifier::new(ns, author(0).id(), i.to_be_bytes());
+        let mut parts: Vec<MPart> = (0..nparts)
+            .map(|i| MPart::RangeFingerprint(MRangeFingerprint { range: MRange { x: id(i), y: id(i + 1) }, fingerprint: MFingerprint([i as u8; 32]) }))
+            .collect();
+        let values: Vec<(SignedEntry, iroh_docs::ContentStatus)> = (0..nvalues)
+            .map(|i| (sign(&nssec, &ESpec { a: (i % 3) as u8, k: i.to_be_bytes().to_vec(), t: T0 + i as u64, c: (i % 4) as u8 }), iroh_docs::ContentStatus::Missing))
+            .collect();
+        parts.push(MPart::RangeItem(MRangeItem { range: MRange { x: id(0), y: id(0) }, values, have_local: nparts % 2 == 0 }));
+        frames.push(Frame::sync(MMessage { parts }.to_real()));
     }
     if let Some(r) = c.abort {
         frames.push(Frame::abort(abort_reason(r)));
